@@ -141,15 +141,16 @@ func runHonest(b Beh, seed int64, big bool) []J {
 	}
 	id := ref.NewIdentity(randomName(rng), rndFunc(rng))
 	usePin := ref.FormatPin(pin)
-	if st.Code == "wrong" {
-		for {
-			p := fmt.Sprintf("%08d", rng.Intn(100000000))
-			if p != pin {
-				usePin = ref.FormatPin(p)
-				break
-			}
-		}
+	wrongPin := usePin
+	for wrongPin == usePin {
+		wrongPin = ref.FormatPin(fmt.Sprintf("%08d", rng.Intn(100000000)))
 	}
+	if st.Code == "wrong" {
+		usePin = wrongPin
+	}
+	// "retry": the user mistypes the code once and enters the right one on the same connection
+	typo := st.Code == "retry"
+	var reuse *ref.Conn
 	stored := func() bool {
 		e, err := tr.DB.EntityWithName(id.Name)
 		return err == nil && e.Name == id.Name && bytes.Equal(e.PublicKey, id.Pub)
@@ -161,12 +162,20 @@ func runHonest(b Beh, seed int64, big bool) []J {
 			h.fail("Setup", "too many redraws")
 			return h.lines
 		}
-		c, err := ref.Dial(tr.Addr)
-		if err != nil {
-			h.fail("Setup", err.Error())
-			return h.lines
+		c := reuse
+		reuse = nil
+		if c == nil {
+			var err error
+			if c, err = ref.Dial(tr.Addr); err != nil {
+				h.fail("Setup", err.Error())
+				return h.lines
+			}
 		}
-		sc = &ref.SetupClient{Pin: usePin, ID: id, Rnd: rndFunc(rng)}
+		thisPin := usePin
+		if typo {
+			thisPin = wrongPin
+		}
+		sc = &ref.SetupClient{Pin: thisPin, ID: id, Rnd: rndFunc(rng)}
 		m, t, err := c.PostTLV("/pair-setup", sc.M1())
 		if err != nil {
 			c.Close()
@@ -176,6 +185,7 @@ func runHonest(b Beh, seed int64, big bool) []J {
 		e2 := sc.HandleM2(t)
 		if e2 == ref.ErrRedraw || e2 == ref.ErrRedrawB {
 			c.Close()
+			typo = st.Code == "retry"
 			continue
 		}
 		pub, _ := t.Get(ref.TagPublicKey)
@@ -192,8 +202,13 @@ func runHonest(b Beh, seed int64, big bool) []J {
 			return h.lines
 		}
 		proof, hasproof := t.Get(ref.TagProof)
-		if st.Code == "wrong" {
+		if st.Code == "wrong" || typo {
 			h.log(J{"name": "M4err", "http": m.Status, "framed": framed(m), "tags": tagsOf(m.Body), "state": t.Byte(ref.TagState), "err": t.Byte(ref.TagError), "hasproof": hasproof, "stored": stored()})
+			if typo {
+				typo = false
+				reuse = c
+				continue
+			}
 			c.Close()
 			return h.lines
 		}
